@@ -49,6 +49,15 @@ func run(r *simkit.Run) {
 	defer ffldb.SetVerifFS(nil)
 	// goleveldb's pool goroutine lingers for one (simulated) second after Close
 	defer time.Sleep(2 * time.Second)
+	if os.Getenv("STORESIM_DUMP") == fmt.Sprint(r.Seed) {
+		defer func() {
+			f, _ := os.Create(os.Getenv("STORESIM_DUMP_TO"))
+			for _, l := range r.Lines() {
+				fmt.Fprintln(f, l)
+			}
+			f.Close()
+		}()
+	}
 	if os.Getenv("STORESIM_DEBUG") != "" {
 		defer func() {
 			synctest.Wait()
@@ -93,6 +102,11 @@ func run(r *simkit.Run) {
 	r.Count("ops_executed", ref.opCount)
 	r.Count("io_calls_reference", ref.ioTotal)
 	r.Event("ref", "io=%d k0=%d commits=%d trace=%s", ref.ioTotal, ref.k0, ref.commits, ref.fs.TraceDigest())
+	if os.Getenv("STORESIM_DUMP") == fmt.Sprint(r.Seed) {
+		for _, p := range ref.tracePoints {
+			r.Event("iotrace", "%d %s %s off=%d len=%d", p.Index, p.Kind, p.Path, p.Off, p.Len)
+		}
+	}
 	if batch == batchRefine {
 		return
 	}
@@ -210,6 +224,9 @@ func shortPath(p string) string {
 func (s *sim) execute() {
 	r := s.r
 	s.install(simfs.New())
+	if os.Getenv("STORESIM_DUMP") != "" {
+		s.fs.KeepTrace(true)
+	}
 	s.model = modeldb.New(netID, s.wl.maxFile)
 	if err := s.openReal(true); err != nil {
 		panic("storesim: cannot create the store on an empty simulated disk: " + err.Error())
@@ -238,6 +255,7 @@ func (s *sim) execute() {
 	}
 	if s.plan.mode == fmNone {
 		s.ioTotal = s.fs.IOCount()
+		s.tracePoints = s.fs.Points()
 	}
 	if s.plan.mode == fmNone && !s.quiet {
 		r.State("files=%s cache=%s", classN(len(s.model.Files())), s.wl.knobClass)
@@ -314,7 +332,7 @@ func (s *sim) guard(fn func()) (stop bool) {
 				// code that then decodes the absent value panics
 				key = "panic-after-swallowed-read-error"
 			}
-			s.r.Violate(prop, "no-panic", key, "panic in the store after injected %s: %v\n%s", s.firedKind, o.p, trim(o.stack, 3000))
+			s.r.Violate(prop, "no-panic", key, "panic in the store after injected %s: %v [%s]", s.firedKind, o.p, cleanStack(o.stack))
 			// listed finding: the panic unwound (and rolled back) the
 			// transaction; the state must be the one before it
 			n := s.model.Commits()
@@ -326,6 +344,28 @@ func (s *sim) guard(fn func()) (stop bool) {
 		return !s.restartAfterFault(o.nr.why)
 	}
 	return o.stop
+}
+
+// cleanStack reduces a stack trace to its function names (no goroutine ids,
+// no argument values, no addresses), so that the event log stays reproducible.
+func cleanStack(stack string) string {
+	var out []string
+	for _, l := range strings.Split(stack, "\n") {
+		if l == "" || strings.HasPrefix(l, "\t") || strings.HasPrefix(l, "goroutine ") || strings.HasPrefix(l, "created by") {
+			continue
+		}
+		if i := strings.LastIndexByte(l, '('); i > 0 {
+			l = l[:i]
+		}
+		if strings.HasPrefix(l, "runtime") || l == "panic" {
+			continue
+		}
+		out = append(out, l)
+		if len(out) >= 12 {
+			break
+		}
+	}
+	return strings.Join(out, " < ")
 }
 
 func trim(s string, n int) string {
@@ -486,7 +526,7 @@ func (s *sim) restartAfterFault(why string) bool {
 	s.postFault = true
 	s.restarts++
 	s.r.Count("restarts_after_io_error", 1)
-	s.r.Count("restart_why:"+strings.SplitN(why, ":", 2)[0]+"/"+s.firedKind+"@"+s.firedPoint.Kind.String(), 1)
+	s.r.Count("restart_why:"+strings.SplitN(why, ":", 2)[0], 1)
 	if s.restarts > 3 {
 		s.r.Count("gave_up_after_repeated_restarts", 1)
 		return false
@@ -656,13 +696,16 @@ func (s *sim) reopenAfterCrash() {
 // the suspected defect whose precondition holds, if any.
 func (s *sim) crashViolation(oracle string, lostLoose int, format string, args ...any) {
 	key := ""
+	msg := fmt.Sprintf(format, args...)
 	switch {
+	case s.plan.crashMode == simfs.PowerLoss && strings.Contains(msg, "write cursor does not exist"):
+		// the batch that initialises a new store is written without sync
+		key = "init-batch-unsynced-powerloss"
 	case s.everPruned() && s.prunedFile:
 		key = "prune-delete-before-durable"
 	case s.plan.crashMode == simfs.PowerLoss && s.rolled && lostLoose > 0:
 		key = "rollover-unsynced-powerloss"
 	}
-	msg := fmt.Sprintf(format, args...)
 	s.r.Violate(prop, oracle, key, "crash(%s) at I/O #%d (%s %s), second=%d: %s", batchNames[batchCrashProcess+int(s.plan.crashMode)],
 		s.firedPoint.Index, s.firedPoint.Kind, shortPath(s.firedPoint.Path), s.plan.secondAt, msg)
 	// a listed known finding: end this execution
